@@ -29,11 +29,11 @@ Inductive sop :=
 | SIndent (i : nat) (n : nat).                                 (* section.indent(n): Indent([section], n) sets _indent *)
 
 Definition blanks (n : nat) : str := repeat BLANK n.
-(* add_content: EVERY line of the text gets the indentation, an empty one too *)
-Definition content_lines (n : nat) (text : str) : list str :=
-  if Nat.eqb n 0 then lines_of text else map (fun l => blanks n ++ l) (lines_of text).
-(* Output.write: an empty line gets none *)
+(* add_content and Output.write alike: every NON-EMPTY line of the text gets the indentation, an empty line gets none
+   (so an empty line is one row whatever the indentation) *)
 Definition indent_line (n : nat) (l : str) : str := match l with [] => [] | _ => blanks n ++ l end.
+Definition content_lines (n : nat) (text : str) : list str :=
+  if Nat.eqb n 0 then lines_of text else map (indent_line n) (lines_of text).
 Definition indent_text (n : nat) (text : str) : str :=
   if Nat.eqb n 0 then text else join_with NL (map (indent_line n) (lines_of text)).
 
@@ -173,32 +173,11 @@ Definition fineb (m : str) : bool :=
 Definition good_lineb (sty : styles) (l : str) : bool :=
   forallb (fun c => negb (N.eqb c LF) && negb (N.eqb c TAB)) l && fineb l
   && match colorize sty false [] l with Ok ([], _) => true | _ => false end.
-Definition has_empty (ls : list str) : bool := existsb (fun l => match l with [] => true | _ => false end) ls.
-(* a text written under indentation n: all its lines are good; an empty line is allowed when the indentation is 0
-   (exact = true), or when it is at most the width (exact = false: the blanks that add_content puts on an empty line
-   are not written at first, and show as trailing blanks when the section is printed again) *)
-Definition good_textb (exact : bool) (w : nat) (sty : styles) (n : nat) (text : str) : bool :=
-  forallb (good_lineb sty) (lines_of text)
-  && (negb (has_empty (lines_of text)) || Nat.eqb n 0 || (negb exact && Nat.leb n w)).
-(* an op sequence, the indentations of the sections so far *)
-Fixpoint set_nth (i : nat) (n : nat) (l : list nat) : list nat :=
-  match i, l with
-  | _, [] => []
-  | O, _ :: r => n :: r
-  | S i', x :: r => x :: set_nth i' n r
-  end.
-Fixpoint good_opsb (exact : bool) (w : nat) (sty : styles) (inds : list nat) (ops : list sop) : bool :=
-  match ops with
-  | [] => true
-  | SCreate :: r => good_opsb exact w sty (inds ++ [0]) r
-  | SIndent i n :: r => good_opsb exact w sty (set_nth i n inds) r
-  | SWrite i text _ :: r | SOverwrite i text :: r =>
-      match nth_error inds i with
-      | Some n => good_textb exact w sty n text
-      | None => true
-      end && good_opsb exact w sty inds r
-  | SClear _ _ :: r => good_opsb exact w sty inds r
-  end.
+(* a written text: all its lines are good; an op sequence: all its written texts are *)
+Definition good_textb (sty : styles) (text : str) : bool := forallb (good_lineb sty) (lines_of text).
+Definition good_opb (sty : styles) (o : sop) : bool :=
+  match o with SWrite _ text _ | SOverwrite _ text => good_textb sty text | _ => true end.
+Definition good_opsb (sty : styles) (ops : list sop) : bool := forallb (good_opb sty) ops.
 
 (* ---- wire ---- *)
 Definition dec_sop (s : sexp) : option sop :=
@@ -212,7 +191,7 @@ Definition dec_sop (s : sexp) : option sop :=
   end.
 (* request: ansi?, width, the style set of the formatter, the ops.  answer: the emits, every section's content lines /
    row count / indentation, the terminal after the emits, and whether the op sequence is inside the class of the
-   theorems (exactly / up to trailing blanks) *)
+   theorem (every written line is good markup) *)
 Definition run_C15 (s : sexp) : sexp :=
   match s with
   | L [ansi; w; set; ops] =>
@@ -225,7 +204,7 @@ Definition run_C15 (s : sexp) : sexp :=
           L [A 0%Z; sList enc_emit es;
              sList (fun x => L [sList sStr (sc_content x); A (Z.of_nat (sc_lines x)); A (Z.of_nat (sc_indent x))]) st;
              enc_term (feed (N.to_nat w) term_init es);
-             sB (good_opsb true (N.to_nat w) (f_styles f) [] ops); sB (good_opsb false (N.to_nat w) (f_styles f) [] ops)]
+             sB (good_opsb (f_styles f) ops)]
         | Err k => sErr k
         end
       | Err k => sErr k
